@@ -39,24 +39,25 @@ def crash_points(tier, rng, ref_events):
             pts.append((f"{name}#{n}", f"crash@{name}#{n}", None, init, list(gflags)))
 
     # every linker sub-step, from a cold and from a foreign-version cache
-    ev("link-lock-acquired", 1)
     ev("link-version-checked", 1, ("old", "old"))
     ev("link-build-start", 1, ("old", "old"))
     ev("link-build-done", 1, ("none", "old"))
     ev("link-renamed", 1, ("old", "old"))
     ev("link-stamp-written", 1)
-    ev("link-unlock", 1, ("old", "none"))
-    # go list / first, middle, last compile / cache put / source write / link / clean-up
+    # go list / a compile in the middle / cache put / source write / link / clean-up
     ev("shared-created", 1)
-    ev("compile-start", 1)
     ev("compile-start", counts.get("compile-start", 2) // 2)
-    ev("compile-start", counts.get("compile-start", 1))
-    ev("pkgcache-put", max(1, counts.get("pkgcache-put", 1) // 2))
     ev("pkgcache-put", counts.get("pkgcache-put", 1))
     ev("asmnames-put", counts.get("asmnames-put", 1))
-    ev("write-source", counts.get("write-source", 2) // 3)
     ev("go-done", 1)
-    ev("shared-remove", 1)
+    if tier == "thorough":
+        ev("link-lock-acquired", 1)
+        ev("link-unlock", 1, ("old", "none"))
+        ev("compile-start", 1)
+        ev("compile-start", counts.get("compile-start", 1))
+        ev("pkgcache-put", max(1, counts.get("pkgcache-put", 1) // 2))
+        ev("write-source", counts.get("write-source", 2) // 3)
+        ev("shared-remove", 1)
     if tier == "thorough":
         for name in ("toolexec-start", "tool-run", "tool-done", "write-source", "compile-start", "pkgcache-get", "pkgcache-dep"):
             for _ in range(4):
@@ -64,7 +65,7 @@ def crash_points(tier, rng, ref_events):
                    rng.choice([[], ["-tiny"], ["-literals"], ["-debugdir=DBG"]]))
         for name in ("link-build-start", "link-build-done", "link-stamp-written", "debugdir-put", "debugdir-restore"):
             ev(name, 1, rng.choice([("old", "old"), ("none", "old"), ("old", "none")]), ["-debugdir=DBG"])
-    nwall = 5 if tier == "quick" else 40
+    nwall = 2 if tier == "quick" else 40
     for i in range(nwall):
         frac = (i + rng.random()) / nwall
         pts.append((f"wall@{frac:.3f}", None, frac, rng.choice([("none", "none"), ("old", "old")]), []))
@@ -192,7 +193,7 @@ def main(tier, seed):
             validate_pipeline(chk, events, src, sb, kills={"crashed": True}, label=f"crash-{label}", cold_gk=True, linker_init=(st, bn))
         rmtree(root)
 
-    parallel(experiment, list(enumerate(points)), workers=4)
+    parallel(experiment, list(enumerate(points)), workers=6)
 
     # ---- replay of TLC's post-kill file-system states: a plain build on each must succeed and match
     pk = sorted(postkill)
@@ -201,7 +202,8 @@ def main(tier, seed):
         cut = [x for x in pk if "partial" in x]
         rest = [x for x in pk if "partial" not in x]
         chk.rng.shuffle(rest)
-        pk = cut + rest[:3]
+        chk.rng.shuffle(cut)
+        pk = cut[:6] + rest[:1]
 
     def poststate(idx_st):
         idx, (st, bn, tm) = idx_st
@@ -229,7 +231,7 @@ def main(tier, seed):
                               what=f"after a successful build on post-kill state {st}/{bn}/{tm} the linker cache is {fs}, not (cur, cur)")
         rmtree(root)
 
-    parallel(poststate, list(enumerate(pk)), workers=4)
+    parallel(poststate, list(enumerate(pk)), workers=6)
     chk.extra["post_kill_states_replayed"] = [list(x) for x in pk]
     chk.extra["crash_points"] = len(points)
     chk.extra["uninterrupted_build_s"] = round(duration, 1)
